@@ -233,7 +233,7 @@ theorem fine_objectField : Fine L objectField :=
 
 theorem fine_index : Fine L index :=
   fine_alt (fine_map _ fine_i32)
-    (fine_alt (fine_map _ (fine_preceded (fine_tuple4 (fine_tagNoCase _) fine_ws (fine_char _) fine_ws) fine_i32))
+    (fine_alt (fine_map _ (fine_preceded (fine_tuple4 (fine_tagNoCase _) fine_ws (fine_char _) fine_ws) fine_i64))
       (fine_alt (fine_map _ (fine_preceded (fine_tuple4 (fine_tagNoCase _) fine_ws (fine_char _) fine_ws) fine_i32))
         (fine_map _ (fine_tagNoCase _))))
 
@@ -355,9 +355,9 @@ theorem fine_existsFn : Fine (L + 1) (existsFn exprOr) :=
 theorem fine_exprAtom (rp : Bool) : Fine (L + 1) (exprAtom exprOr rp) :=
   fine_alt (fine_map _ (fine_tuple3 (fine_delimited fine_ws (fine_innerExpr rp) fine_ws) fine_binaryArithOp
       (fine_delimited fine_ws (fine_innerExpr rp) fine_ws)))
-    (fine_alt (fine_map _ (fine_pair fine_unaryArithOp (fine_delimited fine_ws (fine_innerExpr rp) fine_ws)))
-      (fine_alt (fine_map _ (fine_tuple3 (fine_delimited fine_ws (fine_innerExpr rp) fine_ws) fine_op
+    (fine_alt (fine_map _ (fine_tuple3 (fine_delimited fine_ws (fine_innerExpr rp) fine_ws) fine_op
           (fine_delimited fine_ws (fine_innerExpr rp) fine_ws)))
+      (fine_alt (fine_map _ (fine_pair fine_unaryArithOp (fine_delimited fine_ws (fine_innerExpr rp) fine_ws)))
         (fine_alt
           (fine_delimited_strict (fine_terminated (fine_char _) fine_ws)
             (terminated_char_ws_strict 40) (hrec rp) (fine_preceded fine_ws (fine_char _)))
